@@ -182,14 +182,7 @@ func gen(g *GenCtx) {
 	// ---- key lengths 1..199 (mask derivation k ‖ 1 ‖ 0*) x length pairs around the 200-byte blocks
 	pairsAll := [][2]int{{0, 0}, {1, 0}, {0, 1}, {16, 16}, {199, 1}, {200, 200}, {201, 199}, {399, 0}, {400, 401}, {401, 400}, {600, 33}, {1000, 16}}
 	for kl := 1; kl <= 199; kl++ {
-		spread := false
-		for _, s := range keySpread {
-			spread = spread || s == kl
-		}
 		pairs := pairsAll
-		if !th && !spread {
-			pairs = [][2]int{pairsAll[kl%len(pairsAll)], {16, 16}}
-		}
 		for _, pa := range pairs {
 			idx++
 			if !sel(idx) {
@@ -261,7 +254,7 @@ func gen(g *GenCtx) {
 	// ---- sessions
 	nSess, maxMsgs := 300, 8
 	if th {
-		nSess, maxMsgs = 20000/g.Parts, 24
+		nSess, maxMsgs = 80000/g.Parts, 24
 	}
 	for c := 0; c < nSess; c++ {
 		g.Op("new sanse %s", HexOrDash(g.R.Bytes(Pick(g.R, []int{16, 16, 16, 32, 1, 7, 9, 24, 40, 100, 199}))))
@@ -363,7 +356,7 @@ func gen(g *GenCtx) {
 	// ---- programs over the raw deck function
 	nKv := 400
 	if th {
-		nKv = 20000 / g.Parts
+		nKv = 80000 / g.Parts
 	}
 	for c := 0; c < nKv; c++ {
 		g.Op("new kv %s", HexOrDash(g.R.Bytes(Pick(g.R, []int{16, 16, 32, 1, 7, 33, 199}))))
